@@ -395,6 +395,29 @@ Proof. exact: plan_sound. Qed.
 Theorem C04_route_sound (s : settings) (o : opd F) : wfpd o -> route_ok s o.
 Proof. exact: route_sound. Qed.
 
+(* KroneckerProductLinearOperator._solve, the per-factor loop with the index rotation, for ANY factor classes: whatever (direct, sound)
+   method is used for each factor - dense Cholesky, substitution, Diag, the IDENTITY, a nested structured solve ... - running it through
+   the reshape / permute rotation factor by factor solves the Kronecker system.  (An identity factor still has to be rotated: skipping
+   the step for it is wrong - C04_kron_identity_rotation_observable.) *)
+Theorem C04_kron_factors_sound (s : settings) (fs : seq (opd F)) (sel : opd F -> method) :
+  allc (fun f => (0 < osize f)%N) fs -> all direct (map sel fs) ->
+  allc (fun f => sound_fn f (run_method RA s f (sel f))) fs ->
+  sound_fn (DKron fs) (run_method RA s (DKron fs) (MKronFactors (map sel fs))).
+Proof. exact: kron_factors_sound. Qed.
+
+(* one step of the loop with the IDENTITY action on a (2 x 2, one column) array is not the identity map: it transposes the index *)
+Example C04_kron_identity_rotation_observable :
+  kstep RA id 2 2 1 [:: 0; 1; 0; 0 : F] = [:: 0; 0; 1; 0].
+Proof. by []. Qed.
+
+Example C04_wfpd_kron_identity_sat : wfpd (DKron [:: DIdentity F 1; DDiag 2 [:: 1; 1 : F]; DIdentity F 1]).
+Proof.
+split=> /=; first by split=> //; split=> // -[|[|i]] //= _; rewrite /Model.vget /= ltr01.
+have idwf : dense_wf (DIdentity F 1).
+  by split=> [[|i] [|j]|_|] //; rewrite /Model.get /= ltr01.
+by split=> //; split; first (split=> //; exact: dense_wf_diag2).
+Qed.
+
 Example C04_wfpd_kron_sat : wfpd (DKron [:: DDiag 2 [:: 1; 1 : F]; DIdentity F 1]).
 Proof. exact: wfpd_kron_sat. Qed.
 Example C04_wfpd_blocks_sat : wfpd (DBlockDiag 2 [:: DDiag 1 [:: 1 : F]; DDiag 1 [:: 1 : F]]).
